@@ -140,6 +140,14 @@ def evaluate(e, ctx):
     r = ctx.memo.get(key)
     if r is not None:
         return r
+    wm = getattr(ctx.world, "mesh", None)
+    if wm is not None and e._ufl_is_terminal_:
+        # the world is one cell of ONE mesh: a terminal that belongs to another mesh has no value here
+        dom = getattr(e, "_domain", None)
+        if dom is None and type(e).__name__ in ("Coefficient", "Argument"):
+            dom = ctx.world.resolve(e).ufl_function_space().ufl_domain()
+        if dom is not None and dom != wm:
+            raise StructureMismatch(f"{type(e).__name__} lives on another mesh than the one integrated over")
     sub = getattr(ctx.world, "subst", None)
     if sub and not ctx.nosub and e._ufl_is_terminal_ and type(e).__name__ in ("Coefficient", "Argument", "Constant") and e in sub:
         r = _substituted(e, sub[e], ctx)
